@@ -438,3 +438,146 @@ Proof.
     destruct (walk_value_assign_back r false (avalue a0) (acomment a0) s1 rest Hv Hp1) as (f & s' & Ew & Hd & Hp').
     exists f, s'. split; [exact Ew|]. split; [|exact Hp']. rewrite Hd. cbn. unfold ref_doc. rewrite Hl, Ea. reflexivity.
 Qed.
+
+(* ---- headers ------------------------------------------------------------------------------------- *)
+Definition tags_ptoks (tags : list tag) : list ptok := item_toks (flat_map (fun t => Sp :: tag_items t) tags).
+Definition quals_ptoks (quals : list tag) : list ptok := item_toks (flat_map (fun t => Tok COLON [58] :: tag_items t) quals).
+Definition open_ptoks (b : bool) : list ptok := if b then [(LBRACE, [123])] else [].
+Definition desc_ptoks (d : option descr) : list ptok :=
+  match d with Some d => match dtoks d with [t] => [(DESCRIPTION, lit t)] | _ => [] end | None => [] end.
+
+Lemma item_toks_header h0 : item_toks (header_items h0) =
+  ref_ptoks (htype h0) ++ tags_ptoks (htags h0) ++ quals_ptoks (hquals h0) ++ open_ptoks (hopen h0)
+  ++ desc_ptoks (hdesc h0) ++ item_toks (comment_items (hcomment h0)).
+Proof.
+  unfold header_items. rewrite !item_toks_app, item_toks_ref. f_equal. f_equal. f_equal. f_equal.
+  - destruct (hopen h0); reflexivity.
+  - f_equal. destruct (hdesc h0) as [d|]; [|reflexivity]. cbn. destruct (dtoks d) as [|t [|t2 r]]; reflexivity.
+Qed.
+
+(* the first token after the type / the tags / the qualifiers *)
+Definition hd_type (l : list ptok) : ttype := match l with [] => EOF | p :: _ => fst p end.
+
+Lemma tags_ptoks_hd tags : Forall tlx tags -> tags <> [] ->
+  can_start_tag (hd_type (tags_ptoks tags)) = true /\ hd_type (tags_ptoks tags) <> DOT /\ tags_ptoks tags <> [].
+Proof.
+  intros Hf Hne. destruct tags as [|t r]; [congruence|]. inversion Hf; subst. unfold tags_ptoks. cbn [flat_map].
+  change (Sp :: tag_items t) with ([Sp] ++ tag_items t). rewrite !item_toks_app. cbn [item_toks app].
+  destruct (tag_ptoks_head t H1) as (p & q & Hh & A & B & _). rewrite Hh. cbn. repeat split; auto. discriminate.
+Qed.
+
+Lemma quals_ptoks_hd quals : quals <> [] -> hd_type (quals_ptoks quals) = COLON /\ quals_ptoks quals <> [].
+Proof. destruct quals as [|t r]; [congruence|]. intros _. unfold quals_ptoks. cbn. split; [reflexivity|discriminate]. Qed.
+
+Lemma hd_type_app a b : a <> [] -> hd_type (a ++ b) = hd_type a.
+Proof. destruct a; [congruence|reflexivity]. Qed.
+Lemma hd_type_app_nil b : hd_type ([] ++ b) = hd_type b.
+Proof. reflexivity. Qed.
+
+(* the part of a header line after the qualifiers begins with one of these *)
+Definition tail_start (t : ttype) : Prop := t = LBRACE \/ t = DESCRIPTION \/ t = COMMENT \/ t = EOL.
+
+Lemma header_tail_start h0 rest : tail_start (hd_type (open_ptoks (hopen h0) ++ desc_ptoks (hdesc h0)
+                                       ++ item_toks (comment_items (hcomment h0)) ++ eol_tok :: rest)).
+Proof.
+  unfold tail_start, open_ptoks, desc_ptoks. destruct (hopen h0); [left; reflexivity|]. cbn [app].
+  destruct (hdesc h0) as [d|].
+  - destruct (dtoks d) as [|t [|t2 r]]; cbn [app]; try (right; left; reflexivity);
+      destruct (hcomment h0); cbn; auto.
+  - cbn [app]. destruct (hcomment h0); cbn; auto.
+Qed.
+
+Lemma tags_count tags : Forall tlx tags -> (length tags <= length (tags_ptoks tags))%nat.
+Proof.
+  induction tags as [|t r IH]; intros H; [cbn; lia|]. inversion H; subst. unfold tags_ptoks in *. cbn [flat_map].
+  change (Sp :: tag_items t) with ([Sp] ++ tag_items t). rewrite !item_toks_app, !app_length. cbn [item_toks length].
+  destruct (tag_ptoks_head t H2) as (p & q & Hh & _). rewrite Hh. cbn [length]. specialize (IH H3). lia.
+Qed.
+Lemma quals_count quals : (length quals <= length (quals_ptoks quals))%nat.
+Proof.
+  induction quals as [|t r IH]; [cbn; lia|]. unfold quals_ptoks in *. cbn [flat_map].
+  change (Tok COLON [58] :: tag_items t) with ([Tok COLON [58]] ++ tag_items t). rewrite !item_toks_app, !app_length. cbn [item_toks length]. lia.
+Qed.
+
+Lemma walk_statement_header_back h0 s rest : hlx h0 ->
+  pt s = item_toks (header_items h0) ++ eol_tok :: rest ->
+  exists f s', walk_statement s = WOk f s' /\ fdoc_of f = fdoc_of (FHeader h0) /\
+               (pt s' = rest \/ pt s' = eol_tok :: rest).
+Proof.
+  intros (Hr & Htags & Hquals & Hc & Hd) Hp. rewrite item_toks_header, <- !app_assoc in Hp.
+  set (TAIL := open_ptoks (hopen h0) ++ desc_ptoks (hdesc h0) ++ item_toks (comment_items (hcomment h0)) ++ eol_tok :: rest) in *.
+  pose proof (header_tail_start h0 rest) as Hts. fold TAIL in Hts.
+  assert (HTne : TAIL <> []).
+  { unfold TAIL, open_ptoks, desc_ptoks. destruct (hopen h0); [discriminate|]. cbn [app].
+    destruct (hdesc h0) as [d|]; [destruct (dtoks d) as [|t [|t2 r]]|]; cbn [app];
+      destruct (hcomment h0); discriminate. }
+  (* what follows the qualifiers / the tags / the type *)
+  set (AQ := quals_ptoks (hquals h0) ++ TAIL) in *.
+  set (AT := tags_ptoks (htags h0) ++ AQ) in *.
+  assert (HhdQ : hd_type AQ = COLON \/ tail_start (hd_type AQ)).
+  { unfold AQ. destruct (hquals h0) as [|q qs] eqn:Eq; [right; exact Hts|]. left.
+    rewrite hd_type_app; apply quals_ptoks_hd; discriminate. }
+  assert (HAQne : AQ <> []) by (unfold AQ; intros H; apply app_eq_nil in H; destruct H; contradiction).
+  assert (HhdT : (can_start_tag (hd_type AT) = true /\ hd_type AT <> DOT) \/ hd_type AT = hd_type AQ).
+  { unfold AT. destruct (htags h0) as [|t ts] eqn:Et; [right; reflexivity|]. left.
+    destruct (tags_ptoks_hd (t :: ts)) as (A & B & C); [exact Htags|discriminate|].
+    rewrite hd_type_app by exact C. auto. }
+  assert (HATne : AT <> []) by (unfold AT; intros H; apply app_eq_nil in H; destruct H; contradiction).
+  assert (Hclass : forall l, l <> [] -> hd_type l = COLON \/ tail_start (hd_type l) ->
+            not_dot l /\ match l with [] => True | p :: _ => can_start_tag (fst p) = false end /\
+            hd_type l <> ASSIGN /\ hd_type l <> PLUS).
+  { intros l Hne Hh. destruct l as [|p l']; [congruence|]. cbn in *.
+    destruct Hh as [->|[->|[->|[->| ->]]]]; repeat split; try discriminate; reflexivity. }
+  unfold walk_statement.
+  destruct (pop_reference_back s (htype h0) AT Hr Hp) as (r & s1 & E & Hl & _ & Hp1).
+  { destruct AT as [|p l] eqn:EAT; [exact I|]. cbn. destruct HhdT as [[_ B]|B]; [exact B|].
+    cbn in B. destruct (Hclass AQ HAQne HhdQ) as (A & _). destruct AQ as [|q l']; [congruence|]. cbn in *. congruence. }
+  rewrite E. cbn [wbind].
+  assert (Hn1 : next_type s1 = hd_type AT) by (rewrite next_type_pt, Hp1; destruct AT; reflexivity).
+  assert (HnotA : tt_eqb (next_type s1) ASSIGN = false /\ tt_eqb (next_type s1) PLUS = false).
+  { rewrite Hn1. destruct HhdT as [[A B]|B].
+    - destruct (hd_type AT); try discriminate; split; reflexivity.
+    - rewrite B. destruct (Hclass AQ HAQne HhdQ) as (_ & _ & C & D). split; apply tt_eqb_false; assumption. }
+  destruct HnotA as [-> ->].
+  destruct (Hclass AQ HAQne HhdQ) as (HdQ & HcQ & _).
+  destruct (tags_loop_back (htags h0) (S (length (wrest s1))) [] s1 AQ Htags HdQ HcQ Hp1) as (tags & s2 & Et & Hdt & Hp2).
+  { rewrite <- pt_length, Hp1. unfold AT. rewrite app_length. pose proof (tags_count _ Htags). lia. }
+  rewrite Et. cbn [app wbind].
+  destruct (Hclass TAIL HTne (or_intror Hts)) as (HdT & _ & _).
+  destruct (quals_loop_back (hquals h0) (S (length (wrest s2))) [] s2 TAIL Hquals HdT) as (quals & s3 & Eq & Hdq & Hp3).
+  { destruct TAIL as [|p l]; [exact I|]. cbn in Hts. destruct Hts as [->|[->|[->| ->]]]; discriminate. }
+  { exact Hp2. }
+  { rewrite <- pt_length, Hp2. unfold AQ. rewrite app_length. pose proof (quals_count (hquals h0)). lia. }
+  rewrite Eq. cbn [app wbind].
+  assert (Hn3 : next_type s3 = hd_type TAIL) by (rewrite next_type_pt, Hp3; destruct TAIL; reflexivity).
+  assert (Hdoc : forall d op c e, option_map dvalue d = option_map dvalue (hdesc h0) -> op = hopen h0 ->
+            comment_doc c = comment_doc (hcomment h0) ->
+            fdoc_of (FHeader (mkHeader r tags quals d op (ref_start r) e c)) = fdoc_of (FHeader h0)).
+  { intros d op c e H1 H2 H3. cbn. unfold ref_doc. rewrite Hl, Hdt, Hdq, H1, H2, H3. reflexivity. }
+  unfold TAIL, open_ptoks in Hp3, Hn3.
+  destruct (hopen h0) eqn:Eo.
+  - (* a block is opened *)
+    cbn [app] in Hp3, Hn3. cbn [hd_type fst] in Hn3. rewrite Hn3.
+    destruct (pt_cons s3 _ _ Hp3) as (tb & rs & Hrs0 & _ & Hrs & Epop & _). rewrite Epop. cbn [wbind].
+    assert (Hdn : desc_ptoks (hdesc h0) = []).
+    { unfold desc_ptoks. destruct (hdesc h0) as [d|]; [|reflexivity]. destruct Hd as (_ & Ho & _). congruence. }
+    rewrite Hdn in Hrs. cbn [app] in Hrs.
+    destruct (end_statement_back (hcomment h0) (mkW rs (Some tb)) rest) as (c & s5 & Ee & Hdc & Hp5); [rewrite pt_mk; exact Hrs|].
+    rewrite Ee. cbn [wbind]. eexists _, s5. split; [reflexivity|]. split; [|left; exact Hp5].
+    apply Hdoc; auto. destruct (hdesc h0) as [d|]; [destruct Hd as (_ & Ho & _); congruence|reflexivity].
+  - cbn [app] in Hp3, Hn3. unfold desc_ptoks in Hp3, Hn3.
+    destruct (hdesc h0) as [d|] eqn:Ed.
+    + destruct Hd as ((t0 & Ht0 & Hty0 & _) & _ & Hcn & Hdv). rewrite Ht0 in Hp3, Hn3. rewrite Hcn in Hp3, Hn3.
+      cbn [app comment_items item_toks] in Hp3, Hn3. cbn [hd_type fst] in Hn3. rewrite Hn3.
+      destruct (pt_cons s3 _ _ Hp3) as (td & rs & Hrs0 & Etd & Hrs & Epop & _). rewrite Epop. cbn [wbind].
+      eexists _, _. split; [reflexivity|]. split; [|right; rewrite pt_mk; exact Hrs].
+      apply Hdoc; auto; [|rewrite Hcn; reflexivity]. cbn. f_equal. rewrite Hdv, Ht0. cbn.
+      unfold etok in Etd. injection Etd as _ Hlt. exact Hlt.
+    + cbn [app] in Hp3, Hn3. destruct (hcomment h0) as [c0|] eqn:Ec.
+      * cbn [comment_items item_toks app] in Hp3, Hn3. cbn [hd_type fst] in Hn3. rewrite Hn3.
+        destruct (end_statement_back (Some c0) s3 rest) as (c & s5 & Ee & Hdc & Hp5); [exact Hp3|].
+        rewrite Ee. cbn [wbind]. eexists _, s5. split; [reflexivity|]. split; [|left; exact Hp5].
+        apply Hdoc; auto.
+      * cbn [comment_items item_toks app] in Hp3, Hn3. cbn [hd_type fst eol_tok] in Hn3. rewrite Hn3.
+        eexists _, s3. split; [reflexivity|]. split; [|right; exact Hp3]. apply Hdoc; auto.
+Qed.
